@@ -12,6 +12,8 @@ CONSTANTS KemSet,
           SmallOrder,    \* TRUE: also offer the X25519 small-order encodings as peer keys
           Emit
 
+MoreWitnesses == {}      \* filled in by tools/find_reject_witness.py results
+
 VARIABLE last
 
 EmptyF == [x \in {} |-> <<>>]
@@ -21,7 +23,14 @@ Rec(op, kem, bytes, kind, err, out, outn) ==
      untouched |-> FALSE]
 
 IkmLens(kem) == {0, 1, Nsk(kem) - 1, Nsk(kem), Nsk(kem) + 1, 64, 65, 1000, 65535, 65536, 70000}
-Ikms(kem) == {Leaf("ikmlen" \o ToString(n), n) : n \in IkmLens(kem)}
+\* Inputs whose FIRST candidate is >= the group order, so that DeriveKeyPair must go round the loop (RFC 9180
+\* 7.1.3; probability 2^-32 per input on P-256, found by exhaustive search, and far out of reach on P-384/P-521).
+\* The oracle confirms on every run that each of them really takes the rejection branch.
+RejectionWitnesses(kem) ==
+    IF kem = KEM_P256
+    THEN {Lit(<<13, 0, 0, 0, 0, 5, 26, 207, 41>>)} \cup MoreWitnesses
+    ELSE {}
+Ikms(kem) == RejectionWitnesses(kem) \cup {Leaf("ikmlen" \o ToString(n), n) : n \in IkmLens(kem)}
              \cup {Leaf("ikm" \o ToString(i) \o "k" \o ToString(kem), Nsk(kem)) : i \in 1..NIkm}
 
 KP(name, kem) == DeriveKeyPair(kem, Leaf("ikm" \o name \o ToString(kem), Nsk(kem)))
